@@ -218,6 +218,11 @@ func (vc *VC) embFact(inner, outer Term) {
 	vc.decls = append(vc.decls, "(assert "+sEq(sSel(a0, inner), sSel(a0, outer))+")")
 	// the address of a part of an object is nil exactly when the object's address is
 	vc.decls = append(vc.decls, "(assert "+sEq(sEq(inner, "0"), sEq(outer, "0"))+")")
+	// ... and it is not the address of any separately allocated object
+	for _, a := range vc.allocs {
+		vc.decls = append(vc.decls, "(assert "+sNot(sEq(a.ref, inner))+")")
+	}
+	vc.embTerms = append(vc.embTerms, inner)
 }
 
 func (vc *VC) elemPtr(arr, idx Term, et types.Type) Value {
@@ -350,6 +355,10 @@ func (vc *VC) newAlloc(st *State, t types.Type, escaped bool) *allocInfo {
 		// distinct from the objects this activation made earlier (also implied by the set, stated
 		// directly because it is what most proofs need)
 		vc.assume(st, sNot(sEq(r, o.ref)))
+	}
+	for _, t := range vc.embTerms {
+		// ... and from the addresses of parts of other objects
+		vc.assume(st, sNot(sEq(r, t)))
 	}
 	// nor is it an element of any map (every reference stored anywhere was allocated before)
 	for _, mt := range vc.eng.refMaps {
